@@ -5,7 +5,7 @@ import e2e_common as E
 
 
 def run(ctx):
-    traces = ctx.e2e(E.plan(ctx, [("heal", 14), ("blackhole", 12), ("tiny", 6), ("lossy", 6), ("clean", 2)]))
+    traces = ctx.e2e(E.plan(ctx, [("heal", 14), ("blackhole", 12), ("credit_loss", 16), ("trickle", 4), ("tiny", 6), ("lossy", 6), ("clean", 2)]))
     ctx.validate_families(traces, "Trace_Liveness", E.LIVE_KINDS)
     ctx.assume("bounded liveness on the code: every scripted operation must have ended (success in heal/clean/tiny/lossy runs, reported failure in blackhole runs) before the simulation's horizon; an operation pending at its deadline (app_timeout) or a stalled executor is a rejected event")
     ctx.assume("idle-timeout window: not earlier than the negotiated timeout after the last processed packet, not later than max(negotiated, 3*PTO incl. backoff from the published metrics) + 100 ms after the last activity")
